@@ -2,9 +2,15 @@
   RdfModel.Model.GoUrl — executable model of the *acceptance* behaviour of Go's `net/url.Parse`
   (go1.25) plus `URL.IsAbs`, over code points. Used as the `urlOk` parameter of the decoders when
   the driver runs; theorems never depend on it (they are stated for an arbitrary `urlOk`).
-  Tied by correspondence only (`url.ok` op). IP-literal hosts are approximated (plain IPv6 only).
+  Tied by correspondence (`nq.url`, `iriu.url` ops) and, since round 3, proved equal to the acceptance of
+  the full net/url model (Model/GoUrlFull.lean, which is tied exactly to the code by the `piri.*` ops) on every
+  input that model covers: Props/IriUnify.lean `goUrl_accepts_eq_full_partial`. IP literals go through the
+  same model of `netip.ParseAddr` as GoUrlFull (`parseAddrIs6`; the earlier stand-alone approximation
+  rejected embedded IPv4 such as `[::1.2.3.4]`, which Go accepts); RFC 6874 zones (`%25…`) are modelled
+  here (acceptance only) and are the one class GoUrlFull declines (`PErr.unmodelled`).
 -/
 import RdfModel.Model.Rune
+import RdfModel.Model.GoUrlFull
 namespace RdfModel.GoUrl
 
 def isAlphaC (c : Nat) : Bool := (0x61 ≤ c && c ≤ 0x7a) || (0x41 ≤ c && c ≤ 0x5a)
@@ -71,22 +77,36 @@ def lastIndexOf (c : Nat) (s : List Nat) : Option Nat :=
     | x :: xs, i, acc => go xs (i + 1) (if x = c then some i else acc)
   go s 0 none
 
-/-- Plain IPv6 address text (no zone, no embedded IPv4): approximation of `netip.ParseAddr`. -/
-def ipv6Ok (s : List Nat) : Bool :=
-  let groups := (s.splitOn 0x3a)
-  let n := groups.length
-  let empties := (groups.filter (·.isEmpty)).length
-  let okGroup := groups.all (fun g => g.length ≤ 4 && g.all isHexC)
-  let hasDouble : Bool := (List.range (s.length - 1)).any (fun i => s[i]! = 0x3a && s[i+1]! = 0x3a)
-  let triple : Bool := (List.range (s.length - 2)).any (fun i => s[i]! = 0x3a && s[i+1]! = 0x3a && s[i+2]! = 0x3a)
-  okGroup && !triple && s.length ≥ 2 &&
-    (if hasDouble then
-        -- exactly one "::"; count it once
-        ((List.range (s.length - 1)).filter (fun i => s[i]! = 0x3a && s[i+1]! = 0x3a)).length = 1
-          && n ≤ 9 && (n - empties) ≤ 7
-          && (s.head? != some 0x3a || (s.drop 1).head? = some 0x3a)
-          && (s.getLast? != some 0x3a || (s.reverse.drop 1).head? = some 0x3a)
-     else n = 8 && empties = 0)
+/-- index of the first `"%25"` (`strings.Index(hostname, "%25")`) -/
+def indexPct25 : List Nat → Option Nat
+  | [] => none
+  | c :: rest =>
+    if [0x25, 0x32, 0x35].isPrefixOf (c :: rest) then some 0 else (indexPct25 rest).map (· + 1)
+
+/-- `unescape(s, encodeZone)` succeeds: `%XX` must be `%25`, a space, or a byte host mode leaves alone. -/
+def zoneEscOk : List Nat → Bool
+  | [] => true
+  | 0x25 :: a :: b :: rest =>
+    isHexC a && isHexC b &&
+      ((a = 0x32 && b = 0x35) || unhexC a * 16 + unhexC b = 0x20 ||
+        !GoUrlFull.shouldEscape (unhexC a * 16 + unhexC b) .host) && zoneEscOk rest
+  | 0x25 :: _ => false
+  | c :: rest => hostCharOk c && zoneEscOk rest
+
+/-- The text between `[` and `]` is accepted by `parseHost`: `unescape` (host mode; after the first `%25`
+    zone mode) succeeds, `netip.ParseAddr` accepts the result and it is not an IPv4 address.
+    `netip.ParseAddr` itself is the model shared with Model/GoUrlFull.lean (`parseAddrIs6`: groups, one `::`,
+    embedded IPv4 in the last 32 bits). An accepted address consists of hex digits, `:` and `.` only, so
+    a `%XX` escape in the address part (which can only produce a byte ≥ 0x80) is always rejected by
+    `ParseAddr`; a zone must be non-empty after its `%`. -/
+def ipLiteralOk (hostname : List Nat) : Bool :=
+  match indexPct25 hostname with
+  | some z =>
+    let hp := hostname.take z
+    let zp := hostname.drop z
+    hostEscOk hp && zoneEscOk zp && !hp.contains 0x25 && zp.length > 3 && GoUrlFull.parseAddrIs6 hp hp
+  | none =>
+    hostEscOk hostname && !hostname.contains 0x25 && GoUrlFull.parseAddrIs6 hostname hostname
 
 def parseHostOk (host : List Nat) : Bool :=
   match lastIndexOf 0x5b host with
@@ -97,7 +117,7 @@ def parseHostOk (host : List Nat) : Bool :=
       let colonPort := host.drop (cb + 1)
       validOptionalPort colonPort && hostEscOk colonPort &&
         (let hostname := (host.take cb).drop (ob + 1)
-         cb > ob && ipv6Ok hostname)
+         cb > ob && ipLiteralOk hostname)
   | none =>
     (match lastIndexOf 0x3a host with
       | some i => validOptionalPort (host.drop i)
